@@ -25,7 +25,11 @@ def evOf : Prepare.Event String → Option (String × Nat)
 def newEv (s s' : Prepare.State String) : String :=
   showEvN ((s'.log.drop s.log.length).filterMap evOf)
 
-def key (h ks st : String) : String := String.ofList (Prepare.keyFor h.toList ks.toList st.toList)
+/-- the cache key of the string-level ops (`lookup` / `unprep`): `Prepare.keyFor` on the UTF-8 bytes of the three
+    Go strings, shown as text again (the key is two ASCII length prefixes followed by the three strings, so it
+    is valid UTF-8 whenever they are) -/
+def key (h ks st : String) : String :=
+  String.fromUTF8! (ByteArray.mk (Prepare.keyFor h.toUTF8.toList ks.toUTF8.toList st.toUTF8.toList).toArray)
 
 def unq (s : String) : String := if s == "-" then "" else s
 
@@ -394,16 +398,9 @@ def step (s : St) (ws : List String) : St × String :=
     | _, _, _ => (s, "bad-op")
   | ["keypair", h1, k1, s1, h2, k2, s2] =>
     -- SPECIFICATION: two triples share a cache entry iff they are the same triple. Proved equal to the model's
-    -- answer (`sameKey`) outside the excluded class (C14_keypair_spec); the excluded class — plain concatenations
-    -- equal although the host-id lengths or the keyspace lengths differ — is op `keypairX` (KF-C14-1)
+    -- answer (`sameKey`: the keys `keyFor` computes are equal) for EVERY pair (C14_keypair_spec) — no excluded class
     match parseTriple h1 k1 s1, parseTriple h2 k2 s2 with
-    | some t1, some t2 =>
-      (s, if Prepare.excluded t1 t2 then "excluded" else if Prepare.sameStmt t1 t2 then "same" else "differ")
-    | _, _ => (s, "bad-op")
-  | ["keypairX", h1, k1, s1, h2, k2, s2] =>
-    -- MODEL of the code that exists: the keys are compared
-    match parseTriple h1 k1 s1, parseTriple h2 k2 s2 with
-    | some t1, some t2 => (s, if Prepare.sameKey t1 t2 then "same" else "differ")
+    | some t1, some t2 => (s, if Prepare.sameStmt t1 t2 then "same" else "differ")
     | _, _ => (s, "bad-op")
   | ["pdrain"] =>
     let p := s.prep
